@@ -132,6 +132,12 @@ Definition flat_scan (t : table) (key : N) (K limit : nat) : list N :=
   | SContinue st => s_peers st
   end.
 
+(* Evaluation shortcut for the correspondence check: the paging loop sorts the
+   table once per page; the flat scan sorts it once.  Proved equal to
+   [get_closest] on every input (FullRtProofs.get_closest_eval_correct). *)
+Definition get_closest_eval (t : table) (key : N) (K limit : nat) : res (list N) :=
+  if 0 <? paging_step K limit then Ok (flat_scan t key K limit) else get_closest t key K limit.
+
 (* ---- a crawl and the table swap (runCrawler, dht.go:400-421) ----------- *)
 (* foundPeers: the peers the crawl kept, with the addresses read from the
    peerstore; map keys, so pairwise different. *)
@@ -285,7 +291,11 @@ Definition bulk_send (t : table) (K limit : nat) (keys : list N) : res op_res :=
       c <- bulk_chunk_size (Z.of_nat (length keys)) (Z.of_nat K) (Z.of_nat (length (t_kmap t))) ;;
       groups <- divide_by_chunk_size keys c ;;
       sent <- closest_each t K limit (concat groups) ;;
-      Ok (if any_nonempty sent then RNil else RErr)
+      (* numSuccessfulToWaitFor = int(K * waitFrac * 1.2) (dht.go:1164) is 0 when
+         K = 0; the workers then skip every send (dht.go:1214-1218: 0 successes
+         already "enough", lastSuccess is the zero time).  For K >= 1 and the
+         harness's waitFrac = 1 the threshold is only reached after K sends. *)
+      Ok (if K =? 0 then RErr else if any_nonempty sent then RNil else RErr)
   end.
 
 (* Provide / PutValue (dht.go:592-651, 928-1002) on the same network:
